@@ -168,6 +168,24 @@ async fn scenario(ctx: &Ctx, rng: &mut Rng, epmd: &net::EpmdTable, id: usize, sc
                         _ => Val::Pid { node: format!("x{}", node), id: *id, serial: *serial, creation: *creation },
                     };
                     let _ = peer.write_frame4(&reply_frame(&ghost, 424242)).await;
+                    // the same idea in the pid encoding of older releases (PID_EXT: 32-bit id and serial, one byte of
+                    // creation), with bits set that those releases never used: still another pid
+                    if *creation < 250 {
+                        let (gid, gserial, gcreation) = match k % 3 {
+                            0 => (id | 0x8000, *serial, *creation as u8),
+                            1 => (*id, serial | 0x2000, *creation as u8),
+                            _ => (*id, *serial, *creation as u8 + 4),
+                        };
+                        if (gid, gserial, gcreation as u32) != (*id, *serial, *creation) {
+                            let mut b = vec![112u8, 131, 104, 3, 97, 2, 119, 0, 103, 119, node.len() as u8];
+                            b.extend_from_slice(node.as_bytes());
+                            b.extend_from_slice(&gid.to_be_bytes());
+                            b.extend_from_slice(&gserial.to_be_bytes());
+                            b.push(gcreation);
+                            b.extend(ref_encode_canonical(&Val::Tuple(vec![Val::atom("rex"), Val::Tuple(vec![Val::atom("reply_for"), Val::int(434343)])])).unwrap());
+                            let _ = peer.write_frame4(&b).await;
+                        }
+                    }
                 }
                 // and a SEND to the call's own reply pid that carries no payload at all (a shorter frame right after
                 // a longer one): there is nothing to deliver, the call keeps waiting for its real reply
